@@ -22,6 +22,8 @@ def load(pid=None):
         pp = os.path.join(sd, d, 'patch.diff')
         if os.path.exists(mp) and os.path.exists(pp):
             meta = json.load(open(mp))
+            if meta.get('obsolete_on_head'):
+                continue      # the change no longer breaks the property on the repaired tree (see note_on_head in its meta.json)
             ms.append({'id': 'seed:' + d, 'property': meta['property'], 'patch': pp, 'expect_rule': meta.get('caught_by_rule', ''), 'note': 'independent seeded change'})
     return [m for m in ms if pid is None or m['property'] == pid]
 
